@@ -71,8 +71,8 @@ the printed text is a complete RFC 9535 number (`Spec.numberSpelling` consumes a
 value.  (A property of the trusted `Py.reprFloat`/`Py.floatOfText` models — shortest round-tripping digits —
 which is NOT proved here; the correspondence check tests it on every literal it generates.) -/
 def FloatRoundTrips (x : Num) : Prop :=
-  Spec.numberSpelling (Py.reprFloat x) = some (Py.reprFloat x, []) ∧
-  Spec.numberValue (Py.reprFloat x) = some x
+  Spec.numberSpelling (Impl.strFloat x) = some (Impl.strFloat x, []) ∧
+  Spec.numberValue (Impl.strFloat x) = some x
 
 /-! ### the definitions above are the ones `Proofs.Pc.*` works with -/
 
